@@ -1,319 +1,160 @@
-(** C09 - full/empty lock, part 2: the inductive invariants of the felock system
-    (ownership, sleepers, status). *)
+(** C09 - full/empty lock, part 3: sleepers and status invariants of the felock system. *)
 From Coq Require Import ZArith List Bool Lia Arith.
-From MT Require Import Lib.Interleave Sync.SyncModel Sync.FelockBase.
+From MT Require Import Lib.Interleave Sync.SyncModel Sync.FelockBase Sync.FelockOwn.
 Import ListNotations.
 Local Open Scope Z_scope.
 
 (* ------------------------------------------------------------------------------------------ *)
-(** * 2. ownership: lock bit = number of owners <= 1 *)
+(** * 3. sleepers: every suspended thread is in exactly one place *)
 
-Definition upc_preclear (u : upc) : bool := match u with UPush _ _ => false | _ => true end.
-(** a callback that will still clear the lock bit on behalf of its thread *)
-Definition cb_clears (c : cbpc) : bool := match c with CbEnq _ unl => unl | CbUnl u => upc_preclear u end.
-Definition nclear (l : list cbpc) : nat := sumf (fun c => b2n (cb_clears c)) l.
-(** main program points that only the owner reaches *)
-Definition needown (p : pc) : bool :=
-  match p with
-  | Unl u => upc_preclear u
-  | SigDeq _ _ | SigPush _ _ _ | FeRead _ | FeWrite _ => true
-  | _ => false
+Definition qcount (l : list nat) (x : nat) : nat := sumf (fun y => b2n (Nat.eqb y x)) l.
+Definition upc_hand (u : upc) (x : nat) : nat :=
+  match u with UClear _ y | UPush _ y => b2n (Nat.eqb y x) | _ => O end.
+Definition pc_hand (p : pc) (x : nat) : nat :=
+  match p with Unl u => upc_hand u x | SigPush _ _ y => b2n (Nat.eqb y x) | _ => O end.
+Definition cb_hand (c : cbpc) (x : nat) : nat := match c with CbUnl u => upc_hand u x | _ => O end.
+Definition cb_enq (c : cbpc) : nat := match c with CbEnq _ _ => 1%nat | _ => O end.
+Definition th_hand (th : thread) (x : nat) : nat :=
+  (pc_hand (main th) x + sumf (fun c => cb_hand c x) (cbs th))%nat.
+Definition hands (s : state) (x : nat) : nat := sumf (fun th => th_hand th x) (thr s).
+Definition cqcount (s : state) (x : nat) : nat := sumf (fun q => qcount q x) (cqs s).
+(** number of places (sleep queues, wakers' hands) where [x] currently is *)
+Definition occ (s : state) (x : nat) : nat := (qcount (mq s) x + cqcount s x + hands s x)%nat.
+Definition nenq (th : thread) : nat := sumf cb_enq (cbs th).
+Definition is_susp (p : pc) : bool := match p with Susp _ => true | _ => false end.
+Definition ENQ (s : state) (x : nat) : nat := match get_thread s x with Some th => nenq th | None => O end.
+Definition SUSP (s : state) (x : nat) : nat :=
+  match get_thread s x with Some th => b2n (is_susp (main th)) | None => O end.
+
+Record Inv2 (s : state) : Prop := {
+  i2_len : List.length (cqs s) = 2%nat;
+  i2_sl : forall x, (occ s x + ENQ s x)%nat = SUSP s x;
+  i2_q : forall c y, In y (nth c (cqs s) []) ->
+         exists th, get_thread s y = Some th /\ main th = Susp (ALFe (Z.of_nat c));
+  i2_enq : forall t th c unl, get_thread s t = Some th -> In (CbEnq (QC c) unl) (cbs th) ->
+           main th = Susp (ALFe (Z.of_nat c)) }.
+
+Lemma qcount_app l1 l2 x : qcount (l1 ++ l2) x = (qcount l1 x + qcount l2 x)%nat.
+Proof. apply sumf_app. Qed.
+
+Lemma qcount_in l x : In x l -> (1 <= qcount l x)%nat.
+Proof.
+  induction l as [|a l IH]; cbn; intros H; [contradiction|].
+  destruct H as [->|H]; [rewrite Nat.eqb_refl; cbn; lia|]. specialize (IH H). unfold qcount in IH. lia.
+Qed.
+
+Lemma hands_set_thread s1 t th th' y : get_thread s1 t = Some th ->
+  (hands (set_thread s1 t th') y + th_hand th y = hands s1 y + th_hand th' y)%nat.
+Proof. intros H. unfold hands. rewrite thr_set_thread. apply (sumf_upd (fun th => th_hand th y)). exact H. Qed.
+
+Lemma hands_wake s x thx k y : get_thread s x = Some thx -> main thx = Susp k ->
+  hands (set_thread s x (set_main thx (LockRead k))) y = hands s y.
+Proof.
+  intros H M. pose proof (hands_set_thread s x thx (set_main thx (LockRead k)) y H) as E.
+  unfold th_hand in E. rewrite main_set_main, cbs_set_main, M in E. cbn [pc_hand] in E. lia.
+Qed.
+
+Lemma hands_ge s t th y : get_thread s t = Some th -> (th_hand th y <= hands s y)%nat.
+Proof. intros H. apply (sumf_nth_le (fun th => th_hand th y) _ _ _ H). Qed.
+
+Lemma nth_nonnil (l : list (list nat)) c x r : nth c l [] = x :: r -> nth_error l c = Some (x :: r).
+Proof.
+  revert c. induction l as [|a l IH]; intros [|c] H; cbn in *; try discriminate.
+  - now subst.
+  - apply IH. exact H.
+Qed.
+
+Lemma nth_error_nth_len (l : list (list nat)) c : (c < List.length l)%nat -> nth_error l c = Some (nth c l []).
+Proof.
+  revert c. induction l as [|a l IH]; intros [|c] H; cbn in *; try lia; [reflexivity|]. apply IH. lia.
+Qed.
+
+Lemma nth_upd_same (l : list (list nat)) c q : (c < List.length l)%nat -> nth c (upd l c q) [] = q.
+Proof. revert c. induction l as [|a l IH]; intros [|c] H; cbn in *; try lia; [reflexivity|]. apply IH. lia. Qed.
+
+Lemma nth_upd_other (l : list (list nat)) c c' q : c <> c' -> nth c' (upd l c q) [] = nth c' l [].
+Proof.
+  revert c c'. induction l as [|a l IH]; intros [|c] [|c'] H; cbn in *; try reflexivity; try congruence.
+  apply IH. congruence.
+Qed.
+
+Lemma cqcount_setq s c q x : (c < List.length (cqs s))%nat ->
+  (cqcount (setq s (QC c) q) x + qcount (nth c (cqs s) []) x = cqcount s x + qcount q x)%nat.
+Proof.
+  intros H. unfold cqcount. rewrite cqs_setq_QC.
+  apply (sumf_upd (fun q => qcount q x)). apply nth_error_nth_len. exact H.
+Qed.
+
+Lemma cqcount_ge s c x : (qcount (nth c (cqs s) []) x <= cqcount s x)%nat.
+Proof.
+  destruct (Nat.lt_ge_cases c (List.length (cqs s))) as [H|H].
+  - apply (sumf_nth_le (fun q => qcount q x) _ c). apply nth_error_nth_len. exact H.
+  - rewrite nth_overflow by exact H. cbn. lia.
+Qed.
+
+Definition QQ (s : state) (y : nat) : nat := (qcount (mq s) y + cqcount s y)%nat.
+Definition wk_rel (s s1 : state) (t : nat) (wk : option nat) : Prop :=
+  match wk with
+  | None => thr s1 = thr s
+  | Some x => x <> t /\ exists thx k, get_thread s x = Some thx /\ main thx = Susp k /\
+                                      thr s1 = upd (thr s) x (set_main thx (LockRead k))
   end.
-Definition fe_cb (c : cbpc) : bool :=
-  match c with
-  | CbEnq QM unl => negb unl
-  | CbEnq (QC c) unl => unl && Nat.ltb c 2
-  | CbUnl _ => true
-  end.
-Definition nbadcb (l : list cbpc) : nat := sumf (fun c => b2n (negb (fe_cb c))) l.
-Definition pc_par (p : pc) : Prop := match p with LockCas1 _ w => Z.odd w = false | _ => True end.
+Definition wkn (wk : option nat) (y : nat) : nat := match wk with Some x => b2n (Nat.eqb x y) | None => O end.
+Definition selfn (t y : nat) (n : nat) : nat := if Nat.eqb t y then n else O.
 
-Definition lockpath (p : pc) : bool :=
-  match p with LockRead _ | LockCas1 _ _ | LockCas2 _ _ | Susp _ => true | _ => false end.
-
-Record tinv1 (th : thread) : Prop := {
-  t1_pc : fe_pc (main th) = true;
-  t1_par : pc_par (main th);
-  t1_cb : nbadcb (cbs th) = O;
-  t1_le : (nclear (cbs th) <= 1)%nat;
-  t1_cbown : nclear (cbs th) = 1%nat -> own th = true /\ lockpath (main th) = true;
-  t1_need : needown (main th) = true -> own th = true }.
-
-Record Inv1 (s : state) : Prop := {
-  i1_thr : forall u th, get_thread s u = Some th -> tinv1 th;
-  i1_uniq : forall u v thu thv, get_thread s u = Some thu -> get_thread s v = Some thv ->
-            own thu = true -> own thv = true -> u = v;
-  i1_odd : Z.odd (mword s) = true -> exists u thu, get_thread s u = Some thu /\ own thu = true;
-  i1_even : Z.odd (mword s) = false -> forall u thu, get_thread s u = Some thu -> own thu = false }.
-
-Lemma nth_error_repeat {A} (a : A) n i x : nth_error (repeat a n) i = Some x -> x = a.
-Proof. intros H. apply nth_error_In in H. now apply repeat_spec in H. Qed.
-
-Lemma Inv1_init s : finit s -> Inv1 s.
+Lemma wk_rel_get s s1 t wk : wk_rel s s1 t wk ->
+  forall y, get_thread s1 y =
+            match wk with
+            | Some x => if Nat.eqb x y
+                        then match get_thread s x with
+                             | Some thx => Some (set_main thx (match main thx with Susp k => LockRead k | p => p end))
+                             | None => None end
+                        else get_thread s y
+            | None => get_thread s y
+            end.
 Proof.
-  intros [nt ->]. split; unfold get_thread, init_state; cbn.
-  - intros u th H. apply nth_error_repeat in H. subst. split; cbn; auto; try lia; try discriminate.
-  - intros u v thu thv H. apply nth_error_repeat in H. subst. discriminate.
-  - discriminate.
-  - intros _ u thu H. apply nth_error_repeat in H. now subst.
+  intros W y. destruct wk as [x|]; cbn in W.
+  - destruct W as (Hx & thx & k & A & B & C). unfold get_thread at 1. rewrite C, nth_error_upd.
+    destruct (Nat.eqb_spec x y) as [->|N]; [|reflexivity].
+    unfold get_thread in A. rewrite A. unfold get_thread. rewrite A, B. reflexivity.
+  - unfold get_thread. now rewrite W.
 Qed.
 
-Lemma nclear_app l c : nclear (l ++ [c]) = (nclear l + b2n (cb_clears c))%nat.
-Proof. unfold nclear. rewrite sumf_app. cbn. lia. Qed.
-Lemma nbadcb_app l c : nbadcb (l ++ [c]) = (nbadcb l + b2n (negb (fe_cb c)))%nat.
-Proof. unfold nbadcb. rewrite sumf_app. cbn. lia. Qed.
-
-(** the effect of an unlock step on the ownership data *)
-Lemma urel_own s t th u s1 th1 r :
-  urel s t th u s1 th1 r ->
-  main th1 = main th \/ (exists k, main th = Susp k /\ main th1 = LockRead k).
-Proof. intros H; inv H; cbn; eauto. Qed.
-
-Lemma tinv1_wake th k : main th = Susp k -> tinv1 th -> tinv1 (set_main th (LockRead k)).
+Lemma wk_rel_hands s s1 t wk y : wk_rel s s1 t wk -> hands s1 y = hands s y.
 Proof.
-  intros Hm [A B C D E F]. split; cbn; auto.
-  - rewrite Hm in A. exact A.
-  - intros N. destruct (E N). auto.
-  - discriminate.
+  intros W. destruct wk as [x|]; cbn in W.
+  - destruct W as (Hx & thx & k & A & B & C). unfold hands at 1. rewrite C.
+    apply (hands_wake s x thx k y A B).
+  - unfold hands. now rewrite W.
 Qed.
 
-Definition framed (s s' : state) (t : nat) : Prop :=
-  forall u, u <> t ->
-    get_thread s' u = get_thread s u \/
-    exists thu k, get_thread s u = Some thu /\ main thu = Susp k /\
-                  get_thread s' u = Some (set_main thu (LockRead k)).
-
-Lemma get_same s1 t x : get_thread s1 t <> None -> get_thread (set_thread s1 t x) t = Some x.
-Proof. intros H. rewrite get_set_thread, Nat.eqb_refl. destruct (get_thread s1 t); congruence. Qed.
-
-Lemma get_other s1 t x u : u <> t -> get_thread (set_thread s1 t x) u = get_thread s1 u.
-Proof. intros H. rewrite get_set_thread. destruct (Nat.eqb_spec t u); congruence. Qed.
-
-Lemma urel_frame s t th u s1 th1 r :
-  urel s t th u s1 th1 r -> get_thread s t = Some th ->
-  get_thread s1 t = Some th /\ framed s s1 t.
+Lemma sl_update s s1 t th th' wk :
+  (forall y, (occ s y + ENQ s y)%nat = SUSP s y) ->
+  get_thread s t = Some th -> wk_rel s s1 t wk ->
+  (forall y, (QQ s1 y + th_hand th' y + selfn t y (nenq th' + b2n (is_susp (main th))) + wkn wk y
+              = QQ s y + th_hand th y + selfn t y (nenq th + b2n (is_susp (main th'))))%nat) ->
+  forall y, (occ (set_thread s1 t th') y + ENQ (set_thread s1 t th') y)%nat = SUSP (set_thread s1 t th') y.
 Proof.
-  intros H Hth. inv H; gts; (split; [try assumption|]); try (intros u Hu; left; reflexivity).
-  - rewrite get_other by auto. exact Hth.
-  - intros u Hu. destruct (Nat.eq_dec u x) as [->|Hne].
-    + right. exists thx, k. rewrite get_same by congruence. auto.
-    + left. now rewrite get_other by auto.
+  intros IH Hth W R y.
+  pose proof (wk_rel_get _ _ _ _ W) as G. pose proof (wk_rel_hands _ _ _ _ y W) as Hh.
+  assert (G1 : get_thread s1 t = Some th).
+  { rewrite G. destruct wk as [x|]; [|exact Hth]. destruct W as [Hx _].
+    destruct (Nat.eqb_spec x t); [contradiction|exact Hth]. }
+  pose proof (hands_set_thread s1 t th th' y G1) as Hs.
+  specialize (R y). specialize (IH y). unfold occ, ENQ, SUSP, QQ, selfn in *.
+  unfold cqcount in *. rewrite mq_set_thread, cqs_set_thread.
+  fold (cqcount s1 y) in *. fold (cqcount s y) in *.
+  rewrite get_set_thread, G1. unfold selfn in R.
+  set (h' := hands (set_thread s1 t th') y) in *. set (h1 := hands s1 y) in *. set (h := hands s y) in *.
+  clearbody h' h1 h.
+  destruct (Nat.eqb_spec t y) as [->|Hty].
+  - rewrite Hth in IH.
+    assert (wkn wk y = O).
+    { destruct wk as [x|]; [|reflexivity]. destruct W as [Hx _]. cbn.
+      destruct (Nat.eqb_spec x y); [contradiction|reflexivity]. }
+    lia.
+  - rewrite G. destruct wk as [x|]; cbn [wkn] in R; [|lia].
+    destruct W as (Hx & thx & k & A & B & C).
+    destruct (Nat.eqb_spec x y) as [->|Hxy]; cbn [b2n] in R; [|lia].
+    rewrite A in IH |- *. rewrite B in IH |- *. cbn in IH |- *. unfold nenq in *. gts. lia.
 Qed.
-
-Lemma srel_frame s t th e s' :
-  srel s t th e s' -> get_thread s t = Some th -> framed s s' t.
-Proof.
-  intros H Hth.
-  inv H; try (intros v Hv; left; rewrite get_other by auto; gts; reflexivity).
-  - destruct (urel_frame _ _ _ _ _ _ _ H1 Hth) as [_ F].
-    intros v Hv. rewrite get_other by auto. apply F. exact Hv.
-  - intros v Hv. rewrite get_other by auto. destruct (Nat.eq_dec v x) as [->|Hne].
-    + right. exists thx, k. rewrite get_same by congruence. auto.
-    + left. now rewrite get_other by auto.
-  - destruct (urel_frame _ _ _ _ _ _ _ H1 Hth) as [_ F].
-    intros v Hv. rewrite get_other by auto. apply F. exact Hv.
-Qed.
-
-(** every step has the shape [set_thread s1 t th'] with [t] present in [s1] *)
-Lemma srel_self s t th e s' :
-  srel s t th e s' -> get_thread s t = Some th -> exists th', get_thread s' t = Some th'.
-Proof.
-  intros H Hth.
-  inv H; try (eexists; apply get_same; gts; congruence).
-  - destruct (urel_frame _ _ _ _ _ _ _ H1 Hth) as [G _]. eexists; apply get_same; congruence.
-  - eexists. apply get_same. rewrite get_other by auto. congruence.
-  - destruct (urel_frame _ _ _ _ _ _ _ H1 Hth) as [G _]. eexists; apply get_same; congruence.
-Qed.
-
-Lemma Inv1_update s s' t th th' :
-  Inv1 s -> get_thread s t = Some th -> get_thread s' t = Some th' -> framed s s' t ->
-  tinv1 th' ->
-  ((own th' = own th /\ Z.odd (mword s') = Z.odd (mword s)) \/
-   (own th' = true /\ Z.odd (mword s) = false /\ Z.odd (mword s') = true) \/
-   (own th = true /\ own th' = false /\ Z.odd (mword s') = false)) ->
-  Inv1 s'.
-Proof.
-  intros I Hth Hth' F T Hown.
-  assert (Fown : forall u thu', u <> t -> get_thread s' u = Some thu' ->
-                 exists thu, get_thread s u = Some thu /\ own thu = own thu' /\ (tinv1 thu -> tinv1 thu')).
-  { intros u thu' Hu G. destruct (F u Hu) as [E|(thu & k & A & B & C)].
-    - exists thu'. rewrite <- E. auto.
-    - rewrite C in G. inv G. exists thu. split; [exact A|]. split; [reflexivity|]. apply tinv1_wake. exact B. }
-  assert (Fown2 : forall u thu, u <> t -> get_thread s u = Some thu ->
-                 exists thu', get_thread s' u = Some thu' /\ own thu = own thu').
-  { intros u thu Hu G. destruct (F u Hu) as [E|(thu0 & k & A & B & C)].
-    - exists thu. rewrite E. auto.
-    - rewrite A in G. inv G. eexists. split; [exact C|reflexivity]. }
-  split.
-  - intros u thu G. destruct (Nat.eq_dec u t) as [->|Hu].
-    + rewrite Hth' in G. inv G. exact T.
-    + destruct (Fown _ _ Hu G) as (thu0 & A & _ & C). apply C. eapply i1_thr; eauto.
-  - intros u v thu thv Gu Gv Ou Ov.
-    destruct Hown as [[Ho Hp]|[(Ho & Hp & Hq)|(Ho & Ho' & Hp)]].
-    + (* ownership unchanged *)
-      assert (X : forall w thw', get_thread s' w = Some thw' -> own thw' = true ->
-                  exists thw, get_thread s w = Some thw /\ own thw = true).
-      { intros w thw' G O. destruct (Nat.eq_dec w t) as [->|Hw].
-        - rewrite Hth' in G. inv G. exists th. split; [exact Hth|congruence].
-        - destruct (Fown _ _ Hw G) as (thw & A & B & _). exists thw. split; [exact A|congruence]. }
-      destruct (X _ _ Gu Ou) as (a & Ga & Oa). destruct (X _ _ Gv Ov) as (b & Gb & Ob).
-      eapply i1_uniq; eauto.
-    + (* acquired: nobody held before *)
-      assert (X : forall w thw', get_thread s' w = Some thw' -> own thw' = true -> w = t).
-      { intros w thw' G O. destruct (Nat.eq_dec w t) as [->|Hw]; [reflexivity|].
-        destruct (Fown _ _ Hw G) as (thw & A & B & _).
-        pose proof (i1_even _ I Hp _ _ A). congruence. }
-      rewrite (X _ _ Gu Ou), (X _ _ Gv Ov). reflexivity.
-    + (* released: t was the holder *)
-      assert (X : forall w thw', get_thread s' w = Some thw' -> own thw' = true -> False).
-      { intros w thw' G O. destruct (Nat.eq_dec w t) as [->|Hw]; [congruence|].
-        destruct (Fown _ _ Hw G) as (thw & A & B & _).
-        apply Hw. eapply (i1_uniq _ I w t thw th); eauto; congruence. }
-      exfalso. eapply X; eauto.
-  - intros Hodd. destruct Hown as [[Ho Hp]|[(Ho & Hp & Hq)|(Ho & Ho' & Hp)]].
-    + rewrite Hp in Hodd. destruct (i1_odd _ I Hodd) as (u & thu & G & O).
-      destruct (Nat.eq_dec u t) as [->|Hu].
-      * exists t, th'. split; [exact Hth'|]. rewrite Hth in G. inv G. congruence.
-      * destruct (Fown2 _ _ Hu G) as (thu' & A & B). exists u, thu'. split; [exact A|congruence].
-    + exists t, th'. auto.
-    + congruence.
-  - intros Heven u thu' G. destruct Hown as [[Ho Hp]|[(Ho & Hp & Hq)|(Ho & Ho' & Hp)]].
-    + rewrite Hp in Heven. destruct (Nat.eq_dec u t) as [->|Hu].
-      * rewrite Hth' in G. inv G. rewrite Ho. eapply i1_even; eauto.
-      * destruct (Fown _ _ Hu G) as (thu & A & B & _). rewrite <- B. eapply i1_even; eauto.
-    + congruence.
-    + destruct (Nat.eq_dec u t) as [->|Hu].
-      * rewrite Hth' in G. inv G. exact Ho'.
-      * destruct (Fown _ _ Hu G) as (thu & A & B & _). rewrite <- B.
-        destruct (own thu) eqn:O; [|reflexivity]. exfalso. apply Hu. eapply (i1_uniq _ I u t thu th); eauto.
-Qed.
-
-Lemma fstep_thread s t e s' : fstep s (t, e) = Some s' -> exists th, get_thread s t = Some th.
-Proof.
-  unfold fstep; cbn [snd]. intros H.
-  assert (X : step s (t, e) = Some s') by (destruct e; auto; destruct (fe_op o); [auto|discriminate]).
-  clear H. destruct (get_thread s t) as [th|] eqn:E; [eauto|]. exfalso.
-  destruct e; cbn in X; unfold call, tick, cbtick, ret, ret_ok in X; rewrite E in X; discriminate.
-Qed.
-
-Lemma nclear_upd l i c c' : nth_error l i = Some c ->
-  (nclear (upd l i c') + b2n (cb_clears c) = nclear l + b2n (cb_clears c'))%nat.
-Proof. intros H. unfold nclear. apply (sumf_upd (fun c => b2n (cb_clears c)) _ _ _ c' H). Qed.
-Lemma nclear_remove l i c : nth_error l i = Some c ->
-  (nclear (remove_nth l i) + b2n (cb_clears c) = nclear l)%nat.
-Proof. intros H. unfold nclear. apply (sumf_remove_nth (fun c => b2n (cb_clears c)) _ _ _ H). Qed.
-Lemma nbadcb_upd l i c c' : nth_error l i = Some c ->
-  (nbadcb (upd l i c') + b2n (negb (fe_cb c)) = nbadcb l + b2n (negb (fe_cb c')))%nat.
-Proof. intros H. unfold nbadcb. apply (sumf_upd (fun c => b2n (negb (fe_cb c))) _ _ _ c' H). Qed.
-Lemma nbadcb_remove l i c : nth_error l i = Some c ->
-  (nbadcb (remove_nth l i) + b2n (negb (fe_cb c)) = nbadcb l)%nat.
-Proof. intros H. unfold nbadcb. apply (sumf_remove_nth (fun c => b2n (negb (fe_cb c))) _ _ _ H). Qed.
-Lemma nbadcb_nth l i c : nth_error l i = Some c -> nbadcb l = O -> fe_cb c = true.
-Proof.
-  intros H Z. pose proof (sumf_nth_le (fun c => b2n (negb (fe_cb c))) _ _ _ H) as L.
-  unfold nbadcb in Z. rewrite Z in L. destruct (fe_cb c); [reflexivity|cbn in L; lia].
-Qed.
-
-Lemma valid_st_cases st : valid_st st = true -> st = 0 \/ st = 1.
-Proof. unfold valid_st. intros H. apply orb_prop in H. destruct H as [H|H]; apply Z.eqb_eq in H; auto. Qed.
-
-Lemma valid_st_idx st : valid_st st = true -> Nat.ltb (Z.to_nat st) 2 = true /\ Z.of_nat (Z.to_nat st) = st.
-Proof. intros H. destruct (valid_st_cases _ H) as [->| ->]; cbn; auto. Qed.
-
-Lemma odd_plus1 w : Z.odd w = false -> Z.odd (w + 1) = true.
-Proof. intros H. rewrite Z.add_1_r, Z.odd_succ, Zeven_odd, H. reflexivity. Qed.
-Lemma odd_minus1 w : Z.odd w = true -> Z.odd (w - 1) = false.
-Proof. intros H. rewrite Z.sub_1_r, Z.odd_pred, Zeven_odd, H. reflexivity. Qed.
-Lemma odd_plus2 w : Z.odd (w + 2) = Z.odd w.
-Proof. replace (w + 2) with (Z.succ (Z.succ w)) by lia. now rewrite Z.odd_succ_succ. Qed.
-Lemma odd_minus2 w : Z.odd (w - 2) = Z.odd w.
-Proof. rewrite <- (odd_plus2 (w - 2)). f_equal. lia. Qed.
-
-Ltac t1solve :=
-  repeat match goal with H : main _ = _ |- _ => rewrite H in * end;
-  cbn in *|-;
-  split; autorewrite with sync; rewrite ?nclear_app, ?nbadcb_app;
-  cbn; rewrite ?Nat.add_0_r; auto; try lia; try tauto; try (intros; discriminate).
-
-(** preservation by the unlock micro-program, in main or callback context: [th'] is the
-    record of [t] after the step with its pc advanced *)
-Lemma Inv1_urel s t th u s1 th1 r th' :
-  Inv1 s -> get_thread s t = Some th -> urel s t th u s1 th1 r ->
-  tinv1 th' -> own th' = own th1 ->
-  (upc_preclear u = true -> own th = true) ->
-  framed s (set_thread s1 t th') t ->
-  Inv1 (set_thread s1 t th').
-Proof.
-  intros I Hth U T Ho Hown F.
-  destruct (urel_frame _ _ _ _ _ _ _ U Hth) as [G _].
-  eapply Inv1_update; [exact I|exact Hth|apply get_same; congruence|exact F|exact T|].
-  assert (Hodd : own th = true -> Z.odd (mword s) = true).
-  { intros O. destruct (Z.odd (mword s)) eqn:E; [reflexivity|].
-    pose proof (i1_even _ I E _ _ Hth). congruence. }
-  rewrite Ho. inv U; gts; cbn; try (left; split; reflexivity).
-  - right; right. split; [apply Hown; reflexivity|split; reflexivity].
-  - left. split; [reflexivity|]. apply odd_minus2.
-  - right; right. split; [apply Hown; reflexivity|split; [reflexivity|]].
-    apply odd_minus1. apply Hodd. apply Hown. reflexivity.
-Qed.
-
-Lemma Inv1_step s t e s' : Inv1 s -> fstep s (t, e) = Some s' -> Inv1 s'.
-Proof.
-  intros I H. destruct (fstep_thread _ _ _ _ H) as [th Hth].
-  pose proof (i1_thr _ I _ _ Hth) as T.
-  pose proof (step_srel _ _ _ _ _ Hth (t1_pc _ T) H) as R.
-  pose proof (srel_frame _ _ _ _ _ R Hth) as F. clear H.
-  destruct T as [Tpc Tpar Tcb Tle Tco Tneed].
-  assert (N0 : lockpath (main th) = false -> nclear (cbs th) = 0%nat).
-  { intros L. destruct (nclear (cbs th)) as [|[|n]] eqn:E; [reflexivity| |lia].
-    destruct (Tco eq_refl). congruence. }
-  inversion R; subst; clear R.
-  all: try solve [eapply Inv1_update;
-    [exact I|exact Hth|apply get_same; gts; congruence|exact F|clear F; t1solve|left; split; reflexivity]].
-  - (* cas1_ok *)
-    match goal with Hm : main th = _ |- _ => rewrite Hm in * end. cbn in Tpar, Tpc.
-    assert (Hof : own th = false) by (eapply i1_even; eauto).
-    assert (N : nclear (cbs th) = 0%nat).
-    { destruct (nclear (cbs th)) as [|[|n]] eqn:E; [reflexivity| |lia]. destruct (Tco eq_refl). congruence. }
-    eapply Inv1_update; [exact I|exact Hth|apply get_same; gts; congruence|exact F| |].
-    + split; gts; cbn; auto; try lia; try (destruct k; cbn in *; auto; fail);
-        intros X; rewrite N in X; discriminate.
-    + right; left. gts. cbn. split; [reflexivity|split; [exact Tpar|apply odd_plus1; exact Tpar]].
-  - (* cas2_ok *)
-    eapply Inv1_update; [exact I|exact Hth|apply get_same; gts; congruence|exact F|clear F; t1solve|].
-    left. gts. split; [reflexivity|apply odd_plus2].
-  - (* unl *)
-    match goal with Hm : main th = _, U : urel _ _ _ _ _ _ _ |- _ =>
-      eapply (Inv1_urel _ _ _ _ _ _ _ _ I Hth U); [|reflexivity| |exact F];
-      [|intros P; apply Tneed; rewrite Hm; exact P]; clear F; inv U end.
-    all: try solve [t1solve].
-  - (* sigpush *)
-    eapply Inv1_update; [exact I|exact Hth|apply get_same; rewrite get_other by auto; congruence|exact F
-                        |clear F; t1solve|left; split; reflexivity].
-  - (* feread_wait *)
-    match goal with Hm : main th = _ |- _ => rewrite Hm in * end. cbn in Tpc, Tneed, N0.
-    specialize (N0 eq_refl). specialize (Tneed eq_refl).
-    eapply Inv1_update; [exact I|exact Hth|apply get_same; gts; congruence|exact F| |left; split; reflexivity].
-    clear F. destruct (valid_st_cases _ Tpc) as [->| ->];
-      (split; gts; rewrite ?nclear_app, ?nbadcb_app; cbn; rewrite ?N0, ?Tcb; cbn; auto; try lia; try discriminate).
-  - (* fewrite *)
-    match goal with Hm : main th = _ |- _ => rewrite Hm in * end. cbn in Tpc, Tneed, N0.
-    specialize (N0 eq_refl). specialize (Tneed eq_refl).
-    eapply Inv1_update; [exact I|exact Hth|apply get_same; gts; congruence|exact F| |left; split; reflexivity].
-    clear F. destruct (valid_st_cases _ Tpc) as [->| ->];
-      (split; gts; cbn; auto; try lia; intros X; rewrite N0 in X; discriminate).
-  - (* cbenq *)
-    match goal with Hc : nth_error (cbs th) _ = Some _ |- _ =>
-      pose proof (nbadcb_nth _ _ _ Hc Tcb) as Hfe;
-      pose proof (nclear_upd _ _ _ (CbUnl (URead 0)) Hc) as Hu;
-      pose proof (nclear_remove _ _ _ Hc) as Hr;
-      pose proof (nbadcb_upd _ _ _ (CbUnl (URead 0)) Hc) as Hbu;
-      pose proof (nbadcb_remove _ _ _ Hc) as Hbr end.
-    eapply Inv1_update; [exact I|exact Hth|apply get_same; gts; congruence|exact F| |left; gts; split; reflexivity].
-    clear F. rewrite Hfe in Hbu, Hbr. cbn in Hu, Hr, Hbu, Hbr.
-    destruct unl; cbn in Hu, Hr; split; gts; auto; try lia.
-    + intros X. apply Tco. lia.
-    + intros X. apply Tco. lia.
-  - (* cbunl *)
-    Show.
-Abort.
